@@ -292,3 +292,35 @@ func VerifH_C06_precision_ranges() {
 		}
 	}
 }
+
+// Layout rules that do not depend on the digits (which strconv produces and
+// the engine does not model): which of the formatting routes is taken.
+//   15.7.4.5 step 7: |x| >= 1e21 => toFixed(p) is ToString(x);
+//   15.7.4.2: toString() / toString(undefined) / toString(10) are ToString(x);
+//   15.7.4.6/7: NaN and the infinities print as in ToString for every digits argument.
+func VerifH_C06_format_routes() {
+	vm := New()
+	x := verifNondetFloat64()
+	vm.Set("x", x)
+	verifCover("reached")
+	switch verifChoose(3) {
+	case 0:
+		p := verifChoose(21)
+		vm.Set("p", p)
+		verifAssume(x != x || math.Abs(x) >= 1e21)
+		v, ok := verifRun(vm, "x.toFixed(p) === String(x)")
+		b, _ := v.ToBoolean()
+		verifAssert(ok && b, "15.7.4.5 step 7: toFixed of NaN or |x| >= 1e21 is ToString(x)")
+	case 1:
+		v, ok := verifRun(vm, "x.toString() === String(x) && x.toString(undefined) === String(x) && x.toString(10) === String(x) && ('' + x) === String(x)")
+		b, _ := v.ToBoolean()
+		verifAssert(ok && b, "15.7.4.2: radix 10 (or none) is ToString(x)")
+	default:
+		verifAssume(x != x || math.Abs(x) > math.MaxFloat64)
+		p := 1 + verifChoose(20)
+		vm.Set("p", p)
+		v, ok := verifRun(vm, "x.toExponential(p) === String(x) && x.toPrecision(p) === String(x) && x.toFixed(p) === String(x) && x.toExponential() === String(x) && x.toPrecision() === String(x)")
+		b, _ := v.ToBoolean()
+		verifAssert(ok && b, "15.7.4.5-7: NaN and the infinities print as ToString does")
+	}
+}
